@@ -196,13 +196,45 @@ def run_images(ctx, model, exe):
                               % (API[fmt], cases[i][0], cases[i][1], a[:120], b[:120]))
         if len(ctx.samples) < 2 and 5 in files:
             ctx.sample({"api": API[fmt], "w": cases[5][0], "h": cases[5][1], "file_hex": open(files[5], "rb").read().hex()[:120]})
+    # ---- stack use: rows are small, the image is several times the thread's stack (the row scratch buffer is alloca'd)
+    W, H, STACK = 64, 4096, 256 * 1024
+    sd = os.path.join(outroot, "stack")
+    os.makedirs(sd, exist_ok=True)
+    nstack = 0
+    for fmt in FMT:
+        magic, scale, csize, ncomp, pixcomp, flip, sel = FMT[fmt]
+        rc, out, err = ctx.run_exe(exe, ["imgstack", fmt, sd, str(W), str(H), str(STACK)], timeout=120)
+        ctx.count(1)
+        if out.startswith("SKIP"):
+            continue
+        nstack += 1
+        vals = [(7 * i + 3) % 251 for i in range(W * H * pixcomp)] if csize == 1 else [0x3f800000 + i for i in range(W * H * pixcomp)]
+        why = None
+        if rc != 0:
+            san = re.search(r"(ERROR: AddressSanitizer: [^\n]*|runtime error: [^\n]*)", err)
+            why = "crashed (rc=%d%s)" % (rc, ": " + san.group(1) if san else "")
+        else:
+            try:
+                why = image_oracle(open(out.strip(), "rb").read(), fmt, W, H, vals)
+            except OSError as e:
+                why = "no file: %s" % e
+        if why:
+            ctx.violation("%s(%dx%d) on a thread with a %d KiB stack: %s — rows of %d bytes, %d KiB of output: the writer's extra stack must be one row, "
+                          "not the whole image" % (API[fmt], W, H, STACK // 1024, why, W * ncomp * csize, W * H * ncomp * csize // 1024),
+                          {"api": API[fmt], "format": fmt, "w": W, "h": H, "stack_bytes": STACK,
+                           "pixel_components": "component i = (7 i + 3) mod 251" if csize == 1 else "component i = float with bit pattern 0x3f800000 + i",
+                           "observed": why, "required": "completes and the file decodes to the input; extra stack O(one row) = %d bytes" % (W * ncomp * csize),
+                           "stderr_tail": err[-1500:], "rerun": "%s imgstack %s %s %d %d %d" % (exe, fmt, sd, W, H, STACK)})
+        else:
+            ctx.nontriv("imgstack %s" % fmt)
+    ctx.cov["image_small_stack_runs"] = {"w": W, "h": H, "stack_bytes": STACK, "formats_run": nstack}
     ctx.cov["image_cases_per_format"] = hist
     ctx.cov["image_sizes"] = "%d sizes: 1..6 x 1..6, (1,257), (257,1)%s" % (len(sizes), " + thorough extras" if ctx.thorough() else "")
 
 
 # ------------------------------------------------------------------ tracing: cases
 NAMES = ["render", "frame", "a", "commit", "load.mesh", "k#7", "x_y-z", "Z", "path/to/x", "n0", "phase+1", "(idle)", "q"]
-CATS = ["-", "-", "app", "io", "c.1", "GPU"]
+CATS = ["-", "-", "app", "io", "c.1", "GPU", "render", "a"]      # "render", "a" are names too: name == category pointer
 
 
 def well_nested(ops):
@@ -266,6 +298,22 @@ def trace_cases(ctx):
         c = {"tag": tag, "pname": pname, "threads": threads, "phases": phases or [0] * len(threads), "main": set(main)}
         c["balanced"] = all(well_nested(o) for _, o in threads)
         C.append(c)
+
+    # render loops re-emitting the same few string literals (the harness passes one fixed pointer per distinct text): cached and
+    # first-seen lookups of the recorder's pointer-keyed string cache interleave, a text serves as name and as category
+    add("loop-ABAB", "-", [("t0", ["M:a:-", "M:b:-"] * 3)])
+    add("loop-frame", "app", [("main", ["B:app:app", "B:frame:gfx", "M:swapBuffers:app", "E", "C:frame:7", "E"] * 4)])
+    add("loop-name-is-category", "-", [("t0", ["B:render:render", "M:render:io", "M:io:render", "E"] * 3 + ["M:late:render", "M:render:late"] * 3)])
+    add("loop-2-threads", "-", [("t%d" % k, (["M:a:b", "M:b:a", "B:c:a", "E"] if k == 0 else ["M:b:a", "M:a:b", "M:c:c"]) * 3) for k in range(2)])
+    for rep in range(ctx.pick(6, 24)):
+        pool = r.sample(["a", "b", "app", "frame", "swapBuffers", "render", "io", "x_y-z"], r.randint(2, 4))
+        body = []
+        for _ in range(r.randint(2, 5)):
+            k = r.random()
+            nm, cat = r.choice(pool), r.choice(pool + ["-"])
+            body += ["M:%s:%s" % (nm, cat)] if k < 0.5 else (["C:%s:%d" % (nm, r.randrange(100))] if k < 0.7 else ["B:%s:%s" % (nm, cat), "M:%s:%s" % (r.choice(pool), r.choice(pool + ["-"])), "E"])
+        pre = ["M:%s:-" % x for x in r.sample(pool, r.randint(0, len(pool)))]
+        add("loop-random", r.choice(["-", "proc"]), [("t0", pre + body * r.randint(3, 5))])
 
     def worker(i):
         return ["B:evt_%d:demo" % i, "M:mrk_%d:demo" % i, "C:cnt_%d:%d" % (i, 1000 + i), "E"]
@@ -794,7 +842,7 @@ def run_trace(ctx, model, exe):
     ctx.cov["trace_threads_histogram"] = {str(n): sum(1 for c in cases if len(c["threads"]) == n) for n in range(0, 9)}
 
 
-FACT_THMS = ("facts_image_loop_nest", "facts_image_index", "facts_image_formats", "facts_trace_match", "facts_trace_model")
+FACT_THMS = ("facts_image_loop_nest", "facts_image_index", "facts_image_stack_one_row", "facts_image_formats", "facts_trace_match", "facts_trace_model")
 
 
 def source_facts(ctx):
@@ -841,7 +889,11 @@ def run(ctx):
                     "between cases and to read chunk sizes/clock values) + generators/readers in props/C20/check.py (g++ -O1, ASan+UBSan)",
                     "modelled, not verified: fopen/fprintf/fwrite/ofstream/seekp, alloca row buffer, std::list/std::vector/unordered_map, the pointer-keyed string cache, "
                     "steady_clock and getrusage (clock values are inputs of the model; cpuUtilization text is an opaque token assumed to be a JSON number)"]
-    ctx.assumptions += ["std::thread::id values are inputs observed in the run (the system may give a later thread the id of a finished one); the recorder keeps "
+    ctx.assumptions += ["the writer's extra stack is O(one row): the alloca'd row buffer of N_COMP*sizeX components is allocated once (source fact "
+                        "facts_image_stack_one_row; each writer is run once for a 64x4096 image on a 256 KiB stack); the width itself is limited by the stack",
+                        "names/categories are string literals: a pointer designates one text for the whole run (the recorder caches by pointer; the harness "
+                        "passes one fixed address per distinct text, reused across events, names and categories; theorem string_cache_faithful)",
+                        "std::thread::id values are inputs observed in the run (the system may give a later thread the id of a finished one); the recorder keeps "
                         "one list per id, so such threads share one list in recording order and the last setThreadName wins (modelled: Model.reg_run; "
                         "theorems registry_keeps_every_event / savelog_complete_registry); the iteration order of the unordered_map is taken from the file",
                         "image theorems: every input component fits sizeof(COMP_T) bytes (Spec.comps_fit); the file reader of Spec.v is the reference decoder",
